@@ -98,6 +98,9 @@ def run_value(f):
 
 
 def replay(case):
+    if "history" in case:
+        ran, d = history_in_child(case["history"])
+        return (d == "" if ran else True), (d if ran else "")
     if "aborted_at_line_event" in case:
         from bounded.common import run_interrupted
         f = FmtStr(*[Chunk(t, dict(a)) for t, a in case["runs"]])
@@ -204,6 +207,83 @@ def interrupted(check, tier):
     s.done()
 
 
+# ---------------------------------------------------------------------- one process, many values: what an earlier rendering leaves behind
+def history_case(history):
+    """render the values of `history` one after the other in THIS process; a value is judged iff its attribute values are the proper ones
+    (booleans for styles, numbers 30..37 / 40..47 for colours) - the others (bold=0, bold=1, fg=31.0: values that compare equal to proper
+    ones without being them) are only rendered, to leave behind whatever rendering leaves behind.  -> '' or description"""
+    for i, runs in enumerate(history):
+        f = FmtStr(*[Chunk(t, dict(a)) for t, a in runs])
+        proper = all((type(v) is bool) if k not in ("fg", "bg") else (type(v) is int) for _, a in runs for k, v in a.items())
+        try:
+            if proper:
+                d = run_value(f)
+            else:
+                str(f)
+                d = ""
+        except Exception as e:      # noqa: BLE001
+            d = f"raised {type(e).__name__}: {e}" if proper else ""
+        if d:
+            return f"value {i} of the history ({runs}), rendered after {i} others in the same process: {d}"
+    return ""
+
+
+_HISTORY_CHILD = "import json, sys; from props.C01 import history_case; print(json.dumps(history_case(json.loads(sys.stdin.read()))))"
+
+
+def history_in_child(history):
+    """-> (ran, description) in a brand-new interpreter (nothing rendered before)"""
+    import json, os, subprocess, sys
+    here = os.path.dirname(os.path.dirname(os.path.abspath(__file__)))
+    env = dict(os.environ)
+    env["PYTHONPATH"] = os.pathsep.join([here] + [p for p in sys.path if p])
+    try:
+        r = subprocess.run([sys.executable, "-c", _HISTORY_CHILD], input=json.dumps(history), env=env, capture_output=True, text=True, timeout=120)
+        return True, json.loads(r.stdout.strip().splitlines()[-1])
+    except Exception as e:      # noqa: BLE001  (a child that cannot run is a harness matter, never a verdict)
+        return False, f"{e!r}"
+
+
+def _histories(tier, seed):
+    styles = ["bold", "dark", "italic", "underline", "blink", "invert"]
+    twins = [[["a", {k: v}]] for k in styles for v in (0, 1)] + [[["a", {"fg": 31.0}]], [["a", {"bg": 44.0}]], [["a", {"fg": 31.0, "bold": 0, "bg": 41.0}]]]
+    proper = ([[["hi", {k: v}]] for k in styles for v in (False, True)] + [[["hi", {"fg": c}]] for c in (31, 34)] + [[["hi", {"bg": c}]] for c in (41, 44)]
+              + [[["x", {"fg": 31, "bold": False, "underline": True}], ["y", {"bg": 44, "bold": True, "invert": False}]]])
+    yield twins + proper                                    # the look-alikes first
+    yield proper + twins + proper                           # proper values first, then the look-alikes, then the proper ones again
+    yield [v for pair in zip(twins, proper) for v in pair] + proper
+    yield list(reversed(twins)) + list(reversed(proper))
+    rng = random.Random(seed + 101)
+    for _ in range(12 if tier == "thorough" else 2):
+        h = twins + proper + proper
+        rng.shuffle(h)
+        yield h
+
+
+def histories(check, tier, seed):
+    s = Suite(check, "C01.histories", "values rendered one after the other in one fresh interpreter: style / colour values that merely compare equal to "
+              "proper ones (bold=0, bold=1, fg=31.0) are rendered before, between and after proper values; every proper value must still display "
+              "exactly its characters and formatting (nothing an earlier rendering leaves behind may show)", bound="6 styles x {0,1}, 2 float colours; 4 fixed orders + shuffles",
+              exhaustive=False)
+    for k, h in enumerate(_histories(tier, seed)):
+        s.case(("history", k), sample=dict(history=h[:3]) if k == 0 else None)
+        ran, d = history_in_child(h)
+        if not ran:
+            check.note(f"C01.histories: child {k} did not run: {d}")
+            continue
+        if d:
+            # shrink: the shortest prefix that still fails (each attempt in its own interpreter)
+            lo = h
+            for n in range(1, len(h) + 1):
+                ok, d2 = history_in_child(h[:n])
+                if ok and d2:
+                    lo, d = h[:n], d2
+                    break
+            case = dict(history=lo)
+            s.fail("C01.render.history", case, d, replay={"kind": "suite", "module": "props.C01", "case": case})
+    s.done()
+
+
 def long_inputs(check, tier):
     from bounded.common import long_values
     s = Suite(check, "C01.long", "values with thousands of runs / characters: str() displays exactly their cells", bound="<= 6000 characters")
@@ -224,3 +304,4 @@ def run(check, tier, seed):
     bounded(check, tier, seed)
     derived(check, tier, seed)
     interrupted(check, tier)
+    histories(check, tier, seed)
